@@ -34,7 +34,8 @@ ASSUMPTIONS = [
     "inside a C call, e.g. in the middle of list.append, is not modelled)",
     "CPython 3.12 cannot raise from a line-trace callback at a bare `try:` line or at a repeated event of the same line; those positions "
     "are covered by the theorems but not by injection",
-    "one MPI rank (rank-local copies made by gather/bcast under several ranks are the subject of C13)",
+    "one MPI rank for the traced model correspondence (rank-local copies made by gather/bcast under several ranks are the subject of C13); "
+    "the search additionally runs whole generations under 2-5 stand-in ranks with every block of a kind interrupted and judges the result (C03)",
     "indices appended to change_indices/ref_indices come from list.index and are valid positions (in_range)",
     "the comparison in check_results is sound when it completes (oracle); ast.literal_eval('nan') raises (checked each run)",
 ]
@@ -847,8 +848,77 @@ def correspondence(ctx):
 
 # ------------------------------------------------------------------ search (spec side)
 
+
+def multi_rank(ctx):
+    """Interrupted simplification steps on ranks OTHER than 0: the same generation under several stand-in ranks, every block of one
+    kind interrupted on every rank.  Each rank works on its own slice of the function list, so whatever an interrupt handler puts
+    back must be the rank's own function.  Stated on the result: every rank completes, and the library satisfies C03 (every function
+    matched to a unique it equals under its recorded map) -- liboracle.check_c03, independent code."""
+    import liboracle
+    rep = ctx.report
+    big = 10 ** 6
+    plans = [("core_maths", 4, 3, {"all_kinds": ["KA"], "j": 0, "max": big}), ("core_maths", 4, 2, {"all_kinds": ["KD"], "j": 0, "max": big})]
+    if not ctx.quick:
+        plans += [("core_maths", 4, 5, {"all_kinds": ["KA", "KD"], "j": 0, "max": big}), ("ext_maths", 3, 3, {"all_kinds": ["KA"], "j": 0, "max": big}),
+                  ("core_maths", 4, 3, {"all_kinds": ["KB", "KC"], "j": 0, "max": big}), ("core_maths", 4, 4, {"all_kinds": ["KA"], "j": 2, "max": big})]
+    # ... and ONE interrupt on rank 1 while everything else runs undisturbed (the functions around it reach their final form, so a
+    # handler that puts back another rank's function leaves a wrong match behind): the k-th block rank 1 enters, k = 0 .. K
+    K = 24 if ctx.quick else 60
+    plans += [("core_maths", 4, 2, {"list": [[k, j]], "rank": 1}) for k in range(K) for j in ((0,) if ctx.quick else (0, 2))]
+
+    def one(job):
+        runname, n, P, plan = job
+        return job, _multi_rank_one(ctx, runname, n, P, plan)
+    with ThreadPoolExecutor(max_workers=6) as ex:
+        results = list(ex.map(one, plans))
+    for (runname, n, P, plan), (kind, payload) in results:
+        inp = {"basis": runname, "n": n, "ranks": P, "plan": plan}
+        what = "/".join(plan["all_kinds"]) if "all_kinds" in plan else "block %d of rank %d" % (plan["list"][0][0], plan["rank"])
+        if kind == "case":
+            rep.case(key=("multi-rank", runname, n, P, json.dumps(plan, sort_keys=True)), nontrivial=any(f > 0 for f in payload["fired"][1:]),
+                     sample={"basis": runname, "n": n, "ranks": P, "plan": plan, "interrupts_per_rank": payload["fired"]})
+            rep.evaluations += payload["checked"]
+            if payload["viol"]:
+                v = payload["viol"]
+                rep.fail("failing-input", "library generated under %d ranks with %s interrupted is unsound: %s" % (P, what, json.dumps(v[0])[:300]),
+                         "C15:multi-rank:library:%s" % v[0]["kind"], input=inp, observed=v[:3],
+                         expected="every function equals its unique under the recorded map (C03)")
+        elif kind == "crash":
+            rep.fail("failing-input", "generation under %d ranks does not complete when %s is interrupted: %s" % (P, what, payload["what"]),
+                     "C15:multi-rank:completes", input=inp, observed=payload, expected="every rank returns")
+        else:
+            rep.fail("broken-correspondence", "multi-rank interrupt run failed: %s" % payload, "C15:multi-rank:driver", theorem="C15 multi-rank search")
+
+
+def _multi_rank_one(ctx, runname, n, P, plan):
+    import liboracle
+    if True:
+        work = esrv.mkscratch("c15m")
+        dst = os.path.join(work, "repo")
+        shutil.copytree(ctx.scratch, dst, ignore=shutil.ignore_patterns("function_library", "__pycache__"))
+        try:
+            res = esrv.run_mpi(dst, IMPL, [runname, str(n), "inject", json.dumps(plan)], P, extra={"FAKE_MPI_TIMEOUT": "240"}, timeout=900)
+            outs = []
+            for rc, out, err in res:
+                line = [l for l in out.splitlines() if l.startswith("C15JSON ")]
+                outs.append((rc, json.loads(line[-1][8:]) if line else None, err))
+            fired = [sum(1 for b in (o or {}).get("blocks", []) if b.get("fired")) for _, o, _ in outs]
+            bad = [r for r, (rc, o, _) in enumerate(outs) if rc != 0 or o is None or o.get("status") != "ok"]
+            if bad:
+                rc, o, err = outs[bad[0]]
+                return "crash", {"what": "rank %d: %s" % (bad[0], (o or {}).get("exc") or err.strip().splitlines()[-1:]),
+                                 "exit": [x[0] for x in outs], "stderr": err[-800:]}
+            lib = liboracle.load_library(os.path.join(dst, "esr", "function_library", runname, "compl_%d" % n), n)
+            viol, stats = liboracle.check_c03(lib, ctx.seed)
+            return "case", {"fired": fired, "checked": stats.get("checked", 0), "viol": viol[:3]}
+        except Exception as e:
+            return "driver", "%s: %s" % (type(e).__name__, e)
+        finally:
+            shutil.rmtree(work, ignore_errors=True)
+
 def search(ctx):
     rep = ctx.report
+    multi_rank(ctx)
     st = getattr(ctx, "c15", None)
     if not st:
         return
